@@ -282,6 +282,7 @@ S("c15_reqqueue", 400, 12000),   # REQ with requests queued before the connectio
                           "position of a small frame on nng's read side and/or write side)",
         "budget_s": {"quick": 50, "thorough": 900},
         "scenarios": [
+            S("c18_fifo_seq", 600, 18000, label="resize"),  # order on one connection also while the buffers behind it are resized (round-4 seeded C01_9)
             S("c01_fanout", 600, 18000),    # one send fanned out to several receivers that scribble over their copies (scenarios/c01b_fanout.cc)
             S("c01_link", 1700, 33000),
             S("c01_wire", 2000, 39000),
@@ -382,6 +383,7 @@ S("c15_reqqueue", 400, 12000),   # REQ with requests queued before the connectio
                           "rule on failed sends",
         "budget_s": {"quick": 50, "thorough": 900},
         "scenarios": [
+            S("c06_churn", 500, 15000, label="pipeclose"),  # pipes closed while messages are being received and nobody waits: memory safety of the completion path (round-4 seeded C03_8)
             S("c10_epchurn", 400, 12000, label="epchurn"),
             S("c20_init", 60, 1500, label="cycles", no_init=1, cycles=2),  # nng_init .. nng_fini three times in one process
             # avoid / savoid are bit masks that steer the WORKLOAD around behaviours listed in known_findings.json
